@@ -230,7 +230,7 @@ def data_hex(text, off):
     return text[off:].encode("latin-1").hex()
 
 
-def check_file(exe, env, model, workdir, tag, text, off, pop, orders, extra_probe=3, first_only=False, budget=True, cls=None):
+def check_file(exe, env, model, workdir, tag, text, off, pop, orders, extra_probe=3, first_only=False, budget=True, cls=None, schema=None):
     """returns problems [(kind, where, detail)]; where starts with `fatal:` when the process hung or died on a signal.
     first_only: stop at the first property problem (used while shrinking)."""
     if budget and BUDGET.exhausted():
@@ -245,7 +245,10 @@ def check_file(exe, env, model, workdir, tag, text, off, pop, orders, extra_prob
     eager = parse_eager(out_e)
     rc_i, out_i, err_i = run_h(exe, env, path, maxid, "index")
     hx = data_hex(text, off)
-    reqs = [f"scan {hx}"] + [f"load {hx} " + " ".join(str(i) for i in o) for o in orders]
+    # the dictionary side of loadInstance's inverse step, as data for the model: per keyword the keywords of its candidate referrers
+    invk = G.inv_keywords(schema) if schema else {}
+    invs = ";".join(f"{k.upper()}:" + ",".join(v.upper() for v in vs) for k, vs in sorted(invk.items())) or "-"
+    reqs = [f"scan {hx}"] + [f"load {invs} {hx} " + " ".join(str(i) for i in o) for o in orders]
     rep = model.ask(reqs)
     midx = parse_index(rep[0].split("|"))
     if rc_i != 0:
@@ -302,6 +305,12 @@ def check_file(exe, env, model, workdir, tag, text, off, pop, orders, extra_prob
             if (c[1] is not None) != (mc[2] == "1") or c[2] != int(mc[3]):
                 problems.append(("correspondence", "load", f"history {o} call {k + 1}: impl (non-null={c[1] is not None}, loaded={c[2]}) vs model {' '.join(mc)}"))
                 break
+        # the loaded set, independently of the model: requested ∪ forward closure ∪ candidate referrers (closed under both)
+        if schema is not None and ended:
+            want = sorted(G.expected_loaded(schema, pop, o))
+            if sorted(cached) != want:
+                problems.append(("correspondence", "load.closure", f"history {o}: loaded set {sorted(cached)}, closure of the requested instances "
+                                 f"under forward references and candidate referrers is {want}"))
         mcache = [l for l in mr.split("|") if l.startswith("CACHE")]
         if mcache:
             mids = sorted(int(t.split(":")[0]) for t in mcache[0].split()[1:])
@@ -411,10 +420,10 @@ def report(ctx, exe, env, model, s, pop, text, off, orders, problems, schema_tex
     props = [p for p in problems if p[0] == "property"]
     if props:
         def fails(t, o, pp, oo):
-            pr = check_file(exe, env, model, ctx.work, "shrink", t, o, pp, oo, first_only=True, budget=False)
+            pr = check_file(exe, env, model, ctx.work, "shrink", t, o, pp, oo, first_only=True, budget=False, schema=s)
             return any(k == "property" for k, _, _ in pr)
         pop2, text2, off2, ord2 = shrink(fails, s, pop, text, off, orders, deadline=time.time() + BUDGET.shrink_s)
-        pr = [p for p in check_file(exe, env, model, ctx.work, "shrink", text2, off2, pop2, ord2, first_only=True, budget=False) if p[0] == "property"]
+        pr = [p for p in check_file(exe, env, model, ctx.work, "shrink", text2, off2, pop2, ord2, first_only=True, budget=False, schema=s) if p[0] == "property"]
         det = pr[0][2] if pr else props[0][2]
         ctx.violation(key_of(s, pop2, text2, off2), det,
                       {"schema": schema_text, "file": text2, "load_orders": ord2,
@@ -575,7 +584,7 @@ def run(ctx):
     def work(j):
         si, tag, text, off, pop, orders, cls = j
         try:
-            return j, check_file(exes[si], env, model, ctx.work, tag, text, off, pop, orders, cls=cls)
+            return j, check_file(exes[si], env, model, ctx.work, tag, text, off, pop, orders, cls=cls, schema=schemas[si])
         except Exception as e:   # machinery
             return j, [("machinery", "check_file", f"{type(e).__name__}: {e}")]
     global BUDGET
@@ -601,6 +610,8 @@ def run(ctx):
             ctx.hist("layout class probes", cls)
         ctx.count(1 + len(orders), key=hashlib.sha1(text.encode("latin-1")).hexdigest())
         ctx.hist("instances per file", min(len(pop) // 10 * 10, 60))
+        for o in orders:
+            ctx.hist("loaded set of a history", G.loaded_class(schemas[si], pop, o))
         ctx.hist("populations", "cyclic" if any(x["id"] in G.closure({y["id"]: G.refs_in_order(y) for y in pop}, x["id"]) for x in pop) else "acyclic")
         for x in pop:
             ctx.hist("instance kinds", "complex" if len(x["parts"]) > 1 else "simple")
@@ -621,7 +632,7 @@ def run(ctx):
         if cls:
             # is the layout class the cause?  the same population in the canonical layout must be clean
             t2, o2 = canonical(0, schemas[si], pop)
-            clean = not [p for p in check_file(exes[si], env, model, ctx.work, "cls", t2, o2, pop, orders, first_only=True, budget=False) if p[0] == "property"]
+            clean = not [p for p in check_file(exes[si], env, model, ctx.work, "cls", t2, o2, pop, orders, first_only=True, budget=False, schema=schemas[si]) if p[0] == "property"]
             if clean:
                 classified.add(tag)
                 ctx.violation("layout:" + cls, f"[{cls}] " + props[0][2],
